@@ -608,6 +608,11 @@ def u_add_class_commands(ip: Interp, th: ControlTheory):
     isp = lambda jj: z3.And(obj(jj) != NONE, z3.Select(arr("is_property"), obj(jj)))
     exposed = lambda jj: z3.And(z3.Not(starts_us(name(jj))), z3.Or(isf(jj), isp(jj)))
     state = {"members": members, "exposed": exposed}
+    # precondition surface_ok(cls) (see control_units2): every exposed member satisfies the precondition cmd_ok of
+    # add_function_command / add_property_command (its parameters become flags or have convertible annotations)
+    cmd_ok = z3.Function("cmd_ok", Ref, B)
+    jq = z3.Int("j!pre")
+    st.assume(z3.ForAll([jq], z3.Implies(z3.And(0 <= jq, jq < members.n, exposed(jq)), cmd_ok(obj(jq)))))
     ip.loopspecs[(PAR + "add_class_commands", 1)] = LoopSpec(inv_add_class_commands(state), P, name="each-member")
     th.hooks["getmembers"] = lambda s, fr, pos, kws, node: [(s, IterV(Iter(members.n, members.at, [members.n >= 0], "getmembers")))] if (isinstance(pos[0], RefV)) else None
     th.hooks["CommandParserSpecialKwargs"] = lambda s, fr, pos, kws, node: [(s, KwV(dict(kws)))]
@@ -631,6 +636,7 @@ def u_add_class_commands(ip: Interp, th: ControlTheory):
             ip_.require(s, f"add_{kind}_command:called-for-the-member-itself-with-the-session-stream-and-width",
                         z3.And(member.t == obj(jj), isf(jj) if kind == "function" else z3.And(isp(jj), z3.Not(isf(jj))), z3.BoolVal(ok),
                                kw.d["terminal_width"].t == s.sh["_terminal_width"].t if ok else z3.BoolVal(False)), P + ("C18",))
+            ip_.require(s, f"pre:add_{kind}_command:the-member's-parameters-are-flags-or-have-convertible-annotations", cmd_ok(member.t), P + ("C17",))
             sub = RefV(fresh("subparser", Ref))
             s.assume(sub.t != NONE)
             return [(s, sub)]
